@@ -20,7 +20,11 @@ out = {
  "not_applicable": []
 }
 claimed = set()
-for c in checks["checks"]:
+import glob
+allchecks = []
+for f in sorted(glob.glob(os.path.join(V, "checks", "*", "check.json"))):
+    allchecks.append(json.load(open(f)))
+for c in allchecks:
     pid = c["id"]; claimed.add(pid)
     out["checks"].append({
         "property_id": pid,
